@@ -6,13 +6,13 @@ import ast
 
 from sa.cfg import cfg_of
 from sa.facts import result_sites
-from sa.guards import GuardView, names_in
+from sa.guards import GuardView, atom_of, names_in
 from sa.index import own_nodes
 from sa.report import Ctx
 
 from .common import generic_sweeps
 
-from .cp_common import check_alldiff_coverage, check_constraint_table, check_small_semantics, check_cumulative_horizon, check_id_allocation, check_solve_is_read_only, default_raises, dispatcher_tags, flattener_tags, produced_tags, shape_dispatch_falls_through, structural_len_subjects
+from .cp_common import check_alldiff_coverage, check_constraint_table, check_small_semantics, check_cumulative_horizon, check_id_allocation, check_solve_is_read_only, check_domain_fields_fixed, check_unsat_sites, default_raises, dispatcher_tags, flattener_tags, produced_tags, shape_dispatch_falls_through, structural_len_subjects
 
 EXPLANATION = (
     "Decides structural necessary conditions of 'no returned assignment breaks an added constraint / INFEASIBLE only "
@@ -32,6 +32,7 @@ EXPLANATION = (
 def run(ctx: Ctx):
     # ownership / table obligations first: they do not depend on the shape of the back-end selection code
     ctx.step(check_solve_is_read_only, "C05-O12")
+    ctx.step(check_domain_fields_fixed, "C05-O12")
     ctx.step(check_id_allocation, "C05-O10")
     ctags, etags = produced_tags(ctx)
     ctx.floor("constraint tags produced by cp.py", len(ctags), 12)
@@ -90,7 +91,18 @@ def run(ctx: Ctx):
     cfg = cfg_of(bt.node)
     gv = GuardView(cfg)
     rec = [n for n in own_nodes(bt.node) if isinstance(n, ast.Call) and isinstance(n.func, ast.Attribute) and n.func.attr == "append" and ast.unparse(n.func.value) == "solutions"]
-    ctx.require(len(rec) == 1, "leaf record site `solutions.append` not found in backtrack")
+    ctx.require(len(rec) >= 1, "leaf record site `solutions.append` not found in backtrack")
+    # a solution is recorded only at a leaf: every variable has been assigned, i.e. every constraint saw its last
+    # variable bound by a propagation of its own.  A record site with variables still open relies on "propagation is at
+    # a fixpoint", which the propagators do not promise (x != x, all_different with a repeated variable decide only
+    # once the variable is assigned)
+    leaf_atoms = ("F:unassigned", atom_of("len(unassigned) == 0"))
+    for r_ in rec:
+        at_ = gv.guard_atoms(cfg.stmt_node_containing(r_), stable_only=False)
+        ctx.ob("C05-O4", "R14 GATE", bt, "a solution is recorded only when no variable is left unassigned", any(a in at_ for a in leaf_atoms), f"`{ast.unparse(r_)[:50]}` under {sorted(a for a in at_ if 'unassigned' in a)}: values of an open domain are emitted without the propagation that assigning them would run", node=r_)
+    leafs = [r_ for r_ in rec if any(a in gv.guard_atoms(cfg.stmt_node_containing(r_), stable_only=False) for a in leaf_atoms)]
+    ctx.require(len(leafs) >= 1, "no record site behind the leaf test in backtrack")
+    rec = leafs[:1] + [r_ for r_ in rec if r_ is not leafs[0]]
     rn = cfg.stmt_node_containing(rec[0])
     at = gv.guard_atoms(rn, stable_only=False)
     certifier = [a for a in at if a.startswith("T:") and "self._" in a and "_propagate" not in a and ("sol" in a or "domains" in a)]
@@ -140,6 +152,7 @@ def run(ctx: Ctx):
     ctx.step(check_cumulative_horizon, "C05-O11")
     ctx.step(check_constraint_table, "C05-O13")
     ctx.step(check_small_semantics, "C05-O14", encoder=True, dfs=True)
+    ctx.step(check_unsat_sites, "C05-O14")
     generic_sweeps(ctx, skip_stutter_modules=("solvor/sat.py",))
 
 
@@ -441,7 +454,19 @@ def _v_linear_chain_without_empty_domain_guard(tree):
     M.replace_stmt(g, lambda st: isinstance(st, ast.If) and M.src_is(st.test, "not sums"), [])
 
 
+def _v_add_trims_bounds(tree):
+    g = M.find_func(tree, "Model.add")
+    M.insert(g, "self._constraints.append(constraint)", "if constraint[0] == 'ne_const' and constraint[2] == constraint[1].lb:\n    constraint[1].lb += 1\n    return")
+
+
+def _v_last_variable_shortcut(tree):
+    g = M.find_func(tree, "Model._solve_dfs.backtrack")
+    M.insert(g, "var_name = min(", "if len(unassigned) == 1:\n    for val in domains[unassigned[0]]:\n        solutions.append({n: val if n == unassigned[0] else next(iter(d)) for n, d in domains.items() if not n.startswith('_')})\n        if len(solutions) >= solution_limit:\n            return True\n    return False")
+
+
 VARIANTS = [
+    M.Variant("Model.add turns `x != lb` into a raised lower bound (seed C05-S)", CP, _v_add_trims_bounds, "C05-O12"),
+    M.Variant("DFS emits every value of the last open variable without assigning it (seed C05-T)", CP, _v_last_variable_shortcut, "C05-O4"),
     M.Variant("linear chain takes min() of an empty set when a term has no values (original defect: the SAT back-end crashes where DFS says INFEASIBLE)", ENC, _v_linear_chain_without_empty_domain_guard, "C05-O14"),
     M.Variant("a second variable may take a name already in use (original defect)", CP, _v_duplicate_names_accepted, "C05-O13"),
     M.Variant("Model.add stores whatever it is given (original defect)", CP, _v_add_accepts_anything, "C05-O13"),
